@@ -287,12 +287,12 @@ inline Structure walk(const std::string& fmt, const std::string& d) {
     return s;
 }
 
-// replace digit runs by N and blanks by '-' so that a message can be part of a class key
+// numbers -> N (digits glued to a letter, as in "o5m", stay), blanks -> '-': a message becomes usable in a class key
 inline std::string keyify(const std::string& t, size_t maxlen = 110) {
     std::string r;
     for (size_t i = 0; i < t.size() && r.size() < maxlen; ++i) {
         unsigned char c = static_cast<unsigned char>(t[i]);
-        if (isdigit(c)) { if (r.empty() || r.back() != 'N') r += 'N'; }
+        if (isdigit(c) && !(i > 0 && isalpha(static_cast<unsigned char>(t[i - 1])) && i + 1 < t.size() && isalpha(static_cast<unsigned char>(t[i + 1])))) { if (r.empty() || r.back() != 'N') r += 'N'; }
         else if (c <= ' ' || c >= 0x7f) { if (!r.empty() && r.back() != '-') r += '-'; }
         else r += static_cast<char>(c);
     }
@@ -308,11 +308,12 @@ inline std::string exc_key(const std::string& end) {      // "EXC ns::type: mess
     return keyify(type + ":" + msg);
 }
 
-// what differs between the unsplit baseline and a split run, as a class-key fragment
-inline std::string diff_kind(const Result& base, const Result& r) {
-    if (base.ok() && !r.ok()) return "accepted-whole-rejected-in-pieces[" + exc_key(r.end) + "]";
-    if (!base.ok() && r.ok()) return "rejected-whole[" + exc_key(base.end) + "]-accepted-in-pieces";
-    if (base.end != r.end) return "error-differs[" + exc_key(base.end) + "->" + exc_key(r.end) + "]";
+// what differs between the unsplit baseline and a split run, as a class-key fragment; with_text adds the
+// (number-free) exception texts
+inline std::string diff_kind(const Result& base, const Result& r, bool with_text = true) {
+    if (base.ok() && !r.ok()) return "accepted-whole-rejected-in-pieces" + (with_text ? "[" + exc_key(r.end) + "]" : std::string());
+    if (!base.ok() && r.ok()) return "rejected-whole" + (with_text ? "[" + exc_key(base.end) + "]" : std::string()) + "-accepted-in-pieces";
+    if (base.end != r.end) return "error-differs" + (with_text ? "[" + exc_key(base.end) + "->" + exc_key(r.end) + "]" : std::string());
     if (base.objs.size() != r.objs.size()) return std::string(base.ok() ? "" : "before-error-") + "object-count-differs";
     if (base.objs != r.objs) return std::string(base.ok() ? "" : "before-error-") + "objects-differ";
     if (base.header != r.header) return "header-differs";
